@@ -30,7 +30,8 @@ RULE = ("cases: (pipeline, k, n, file/segment bytes, ordered list of k distinct 
         "(pipeline,k,n,ids,bytes); non-trivial = decode reached and returned bytes.  End to end (pipeline = grid): real uploads on the "
         "in-process grid, 3-of-256, 2-of-255 and 3-of-10 in every run (thorough adds 1/2/255/256-of-256, 7-of-255, 16-of-64, 5-of-129), "
         "then for a few k-subsets (k highest, k lowest, spread, seeded) only those shares are left on the servers and a fresh node "
-        "downloads.  Plus codec parameter and splitting/padding/"
+        "downloads.  CRSEncoder.encode(desired_share_ids = seeded subsets in seeded order) against the full encode, decoded twice "
+        "with the same list objects.  Plus codec parameter and splitting/padding/"
         "trimming cases compared with the Coq model (data_size 0..3k+2 and around multiples of k, k in {1,2,3,7,16,100,255,256}).")
 META = {
     "title": "Erasure coding recovers from any k blocks",
@@ -406,8 +407,94 @@ def oracle_grid(ctx):
         grid_file(ctx, k, n, size, max_seg, r.getrandbits(20), grid_subsets(r, k, n, count))
 
 
+# ---------------------------------------------------------------------------------------------
+# ICodecEncoder.encode(inshares, desired_share_ids=...) and repeated ICodecDecoder.decode calls
+def desired_case(ctx, case):
+    """encode() restricted to `desired` (any order, no repeats): every returned (block, id) pair is the
+    block the full encode() gives for that id; k of them decode to the pieces; decoding twice with the
+    same list objects gives the same answer and leaves the caller's lists alone."""
+    from allmydata.codec import CRSEncoder, CRSDecoder
+    k, n, desired = case["k"], case["n"], list(case["desired"])
+    data = bytes.fromhex(case["data"])
+    ps = len(data) // k
+    pieces = [data[i * ps:(i + 1) * ps] for i in range(k)]
+    old = cputhreadpool_disable()
+    try:
+        c = CRSEncoder()
+        c.set_params(len(data), k, n)
+        full, full_ids = _res(c.encode(list(pieces)))
+        ref = dict(zip(full_ids, [bytes(b) for b in full]))
+        got, got_ids = _res(c.encode(list(pieces), list(desired)))
+        got = [bytes(b) for b in got]
+        obs = {"ids": list(got_ids), "blocks": [b.hex() for b in got]}
+        if list(got_ids) != desired or len(got) != len(desired) or any(ref[i] != b for i, b in zip(got_ids, got)):
+            bad = [i for i, b in zip(got_ids, got) if ref.get(i) != b]
+            ctx.oracle_fail("codec-desired-share-ids-mislabelled",
+                            "CRSEncoder(k=%d,n=%d).encode(pieces, desired_share_ids=%r) returns ids %r; the blocks labelled %r are not the blocks the full encode() gives for those ids"
+                            % (k, n, desired, list(got_ids), bad), case=case, expected=[ref[i].hex() for i in desired if i in ref], observed=obs["blocks"])
+        if len(desired) >= k:
+            pick = case.get("pick") or list(range(k))
+            blocks = [got[j] for j in pick]
+            ids = [got_ids[j] for j in pick]
+            d = CRSDecoder()
+            d.set_params(len(data), k, n)
+            b0, i0 = list(blocks), list(ids)
+            r1 = [bytes(x) for x in _res(d.decode(blocks, ids))]
+            r2 = [bytes(x) for x in _res(d.decode(blocks, ids))]
+            obs["decoded"] = [x.hex() for x in r1]
+            if r1 != pieces:
+                ctx.oracle_fail("erasure-decode-wrong-bytes", "codec k=%d n=%d: the blocks encode(desired_share_ids=%r) labels %r decode to %r, the pieces are %r"
+                                % (k, n, desired, ids, [x.hex() for x in r1], [x.hex() for x in pieces]), case=case,
+                                expected=[x.hex() for x in pieces], observed=[x.hex() for x in r1])
+            elif r2 != r1 or blocks != b0 or ids != i0:
+                ctx.oracle_fail("codec-decode-mutates-arguments",
+                                "CRSDecoder(k=%d,n=%d).decode(blocks, ids=%r) called twice with the same list objects: second result %r, first %r; caller's lists changed: %s"
+                                % (k, n, i0, [x.hex() for x in r2], [x.hex() for x in r1], blocks != b0 or ids != i0), case=case,
+                                expected=[x.hex() for x in r1], observed=[x.hex() for x in r2])
+    except Exception as e:
+        ctx.oracle_fail("codec-desired-share-ids-raises", "encode/decode with desired_share_ids=%r (k=%d,n=%d) raised %s: %s" % (desired, k, n, type(e).__name__, e), case=case)
+        obs = {"error": type(e).__name__}
+    finally:
+        cputhreadpool_restore(old)
+    return obs
+
+
+def cputhreadpool_disable():
+    from allmydata.util import cputhreadpool
+    old = cputhreadpool._DISABLED
+    cputhreadpool._DISABLED = True
+    return old
+
+
+def cputhreadpool_restore(old):
+    from allmydata.util import cputhreadpool
+    cputhreadpool._DISABLED = old
+
+
+def oracle_desired(ctx):
+    m = ctx.n(300, 3000)
+    for i in range(m):
+        r = ctx.rng("desired", i)
+        n = r.choice([2, 3, 3, 4, 5, 7, 10, 16, 64, 255, 256]) if i % 4 else r.randrange(1, 17)
+        k = max(1, min(n, r.choice([1, 2, 3, n - 1, n, r.randrange(1, n + 1)])))
+        ps = r.choice([1, 2, 3, 8])
+        data = rbytes(r, k * ps)
+        cnt = r.choice([1, k, k, k + 1, n, r.randrange(1, n + 1)])
+        cnt = max(1, min(n, cnt))
+        desired = r.sample(range(n), cnt)                      # random order, no repeats
+        if i % 5 == 0 and cnt >= 2:
+            desired.sort(reverse=True)                           # a check id before a primary id whenever both occur
+        case = {"pipeline": "codec-desired", "k": k, "n": n, "data": data.hex(), "desired": desired}
+        if cnt >= k:
+            case["pick"] = r.sample(range(cnt), k)
+        desired_case(ctx, case)
+        ctx.case(("desired", k, n, tuple(desired), data), kind="codec-desired-ids")
+
+
 def replay(ctx, record):
     case = record.get("case") or {}
+    if case.get("pipeline") == "codec-desired":
+        return desired_case(ctx, case)
     if case.get("pipeline") == "grid":
         subs = [case["subset"]] if case.get("subset") else []
         return grid_file(ctx, case["k"], case["n"], case["size"], case["max_segment_size"], case["seed"], subs, case.get("servers", 10))
@@ -797,6 +884,7 @@ def run(ctx):
     oracle_corpus(ctx)
     oracle_exhaustive(ctx)
     oracle_grid(ctx)
+    oracle_desired(ctx)
     oracle_seeded(ctx)
     # both correspondences are evaluated by one round of coqc shards
     terms, on_bad = [], []
